@@ -137,4 +137,7 @@ def run(ctx):
     r1_r3_correct_table(ctx, sym, model)
     r4_initial(ctx, sym, model)
     r5_class_defaults(ctx, sym)
+    # the merge/finalize table above speaks about resolve() only if resolve() feeds every feedback through it
+    from .c01 import r3_r5_resolvers
+    r3_r5_resolvers(ctx, sym, ids=('R6', 'R7'), writers=False)
     ctx.assume("instructor-defined Feedback subclasses are outside the class table")
